@@ -1,7 +1,7 @@
 """C12 - PPM encode/decode bijection; HDD/SDD emit valid codewords.  Spec: PPM.tla, PPMModel.tla, PPMTrace.tla."""
 import itertools, random
 import numpy as np
-from ..core import deadline, import_repo
+from ..core import deadline, import_repo, protect
 
 LEVEL = "model_checking"
 INV = ["OneHot", "PositionIsValue", "HddValid", "HddIdentityOnCodewords", "RoundTrip", "DecodeLength", "SddIdentity"]
@@ -33,8 +33,8 @@ def run(ctx):
 
     def forms(bits):
         a = np.array(bits, dtype=np.uint8)
-        return {"str": "".join(map(str, bits)), "list": list(bits), "tuple": tuple(bits), "ndarray": a,
-                "binary_sequence": binary_sequence(a.copy())}
+        return {"str": "".join(map(str, bits)), "list": list(bits), "tuple": tuple(bits), "ndarray": protect(a),
+                "binary_sequence": protect(binary_sequence(a.copy()))}
 
     def data(x):
         return [int(v) for v in x.data]
@@ -118,7 +118,7 @@ def run(ctx):
         vout, bias = rnd.choice([1, 2, 5, -3]), rnd.choice([0, 1, -2])
         wave = guarded(DAC, code, float(bias), float(vout), shape)
         noise = np.array([rnd.randrange(-2, 3) for _ in range(wave.len())], dtype=float) if rnd.random() < 0.6 else None
-        sig = electrical_signal(wave.signal, noise)
+        sig = protect(electrical_signal(wave.signal, noise))
         out = guarded(SDD, sig, M)
         tot = sig.signal if noise is None else sig.signal + noise
         assert np.all(tot == np.round(tot))
